@@ -36,7 +36,7 @@ def run_suite(suite, pid, rng, tier, findings):
         out = suite.run_impl(case)
         cases.append(case)
         outs.append(out)
-        terms.append(suite.to_coq(case, out))
+        terms.append(None if (isinstance(case, dict) and case.get("oracle_only")) else suite.to_coq(case, out))
     t_impl = time.time() - t0
     t1 = time.time()
     # suites may cap how many cases go through the (slower) in-kernel comparison; the property oracle
